@@ -203,8 +203,18 @@ func (c *Config) Parent() *Config {
 
 // FlattenedKeys return a sorted flattened views of the set keys in the configuration
 func (c *Config) FlattenedKeys(opts ...Option) []string {
+	return c.flattenedKeys(map[*Config]bool{}, opts)
+}
+
+// flattenedKeys implements FlattenedKeys. visiting holds the configs on the
+// current recursion path: a reference that leads back into one of them is
+// reported as a key of its own instead of being followed forever.
+func (c *Config) flattenedKeys(visiting map[*Config]bool, opts []Option) []string {
 	var keys []string
 	normalizedOptions := makeOptions(opts)
+
+	visiting[c] = true
+	defer delete(visiting, c)
 
 	if normalizedOptions.pathSep == "" {
 		normalizedOptions.pathSep = "."
@@ -214,12 +224,12 @@ func (c *Config) FlattenedKeys(opts ...Option) []string {
 		for _, v := range c.fields.dict() {
 
 			subcfg, err := v.toConfig(normalizedOptions)
-			if err != nil {
+			if err != nil || visiting[subcfg] {
 				ctx := v.Context()
 				p := ctx.path(normalizedOptions.pathSep)
 				keys = append(keys, p)
 			} else {
-				newKeys := subcfg.FlattenedKeys(opts...)
+				newKeys := subcfg.flattenedKeys(visiting, opts)
 				keys = append(keys, newKeys...)
 			}
 		}
@@ -227,12 +237,12 @@ func (c *Config) FlattenedKeys(opts ...Option) []string {
 		for _, a := range c.fields.array() {
 			scfg, err := a.toConfig(normalizedOptions)
 
-			if err != nil {
+			if err != nil || visiting[scfg] {
 				ctx := a.Context()
 				p := ctx.path(normalizedOptions.pathSep)
 				keys = append(keys, p)
 			} else {
-				newKeys := scfg.FlattenedKeys(opts...)
+				newKeys := scfg.flattenedKeys(visiting, opts)
 				keys = append(keys, newKeys...)
 			}
 		}
